@@ -17,40 +17,4 @@ theorem C10_network_generator :
     (genGx : Int) = Gen.Curves.secp256k1.gx ∧ (genGy : Int) = Gen.Curves.secp256k1.gy := by
   decide +kernel
 
-/-! ## what the code accepts today (before the `fix:` commits) -/
-
-def k1 := Gen.Curves.secp256k1
-
-/-- the blob `04 ‖ (p+1) ‖ y` with `y² ≡ 8`: a second encoding of the point with `x = 1` -/
-def witnessXGeP : Bytes :=
-  4 :: (beBytes (k1.p + 1) 32 ++ beBytes 29896722852569046015560700294576055776214335159245303116488692907525646231534 32)
-
-/-- `sec_strict` is false for the code as it stands: a blob whose x field is `p + 1` is accepted by
-`Key.from_sec` as a key (a second encoding, with another hash160 and address, of the point with `x = 1`). -/
-theorem C10_sec_strict_refuted :
-    ¬ (∀ blob k, KeyCtor.keyFromSec k1 blob = .ok k → k.pub.1 < k1.p ∧ k.pub.2 < k1.p) := by
-  intro h
-  have h1 : KeyCtor.keyFromSec k1 witnessXGeP =
-      .ok ⟨none, ((k1.p : Int) + 1, 29896722852569046015560700294576055776214335159245303116488692907525646231534), false⟩ := by
-    decide +kernel
-  have := (h _ _ h1).1
-  exact absurd this (by decide +kernel)
-
-/-- `der_rt` is false for the code as it stands: an integer of 127 bytes with the top bit set is written with
-the one-byte length `0x80`, which the reader takes for a long-form length of zero bytes. -/
-theorem C10_der_rt_refuted :
-    ¬ (∀ r s : Int, 0 ≤ r → 0 ≤ s → ∀ blob, Der.sigencodeDer r s = .ok blob → Der.sigdecodeDer blob false = .ok (r, s)) := by
-  intro h
-  have h1 : (match Der.sigencodeDer (2 ^ 1015) 1 with
-      | .ok blob => Der.sigdecodeDer blob false
-      | .error _ => .ok (0, 0)) = .error .valueError := by
-    decide +kernel
-  cases hh : Der.sigencodeDer (2 ^ 1015) 1 with
-  | error e => rw [hh] at h1; cases h1
-  | ok blob =>
-    simp only [hh] at h1
-    have := h _ _ (by decide) (by decide) blob hh
-    rw [this] at h1
-    cases h1
-
 end Pycoin.C10
